@@ -60,4 +60,8 @@ def replay(ctx, data):
     inp = dict(data["input"])
     inp.setdefault("key", data.get("key", ""))
     rep = ctx.harness("c03", ["replay", json.dumps(inp)])
-    return 1 if rep and rep.get("impl_violations") else 0
+    # the defect replays iff the same construct class is reported again
+    again = [v for v in (rep or {}).get("impl_violations", []) if v.get("key") == data.get("key")]
+    for v in again[:1]:
+        print(f"[C03] replayed: {v.get('what')}")
+    return 1 if again else 0
